@@ -132,6 +132,7 @@
          const int s = o.a; if (w.ri[s].live) return seqx::SEQX_DISABLED;
          const uint32 flags = o.b ? (uint32)HTIT_FLAG_BACKWARDS : 0u;
          RefIter & r = w.ri[s]; r = RefIter(); r.live = true; r.back = (o.b != 0);
+         if (v == -2) { const RList & mu = w.m[U]; w.it[s] = new IterT(*w.u, flags); r.cursor = mu.size() ? (r.back ? mu[mu.size() - 1].k : mu[0].k) : -1; r.owner = (r.cursor != -1) ? U : -1; break; }   // an iterator on the OTHER table
          if (v < 0) { w.it[s] = new IterT(t, flags); r.cursor = n ? (r.back ? m[n - 1].k : m[0].k) : -1; }
          else { const HKey kat(v); w.it[s] = new IterT(t, kat, flags); r.cursor = (RFind(m, v) >= 0) ? v : -1; }
          r.owner = (r.cursor != -1) ? T : -1; break; }
